@@ -32,9 +32,11 @@ if os.path.exists(tryfile):
             while j >= 0 and not lines[j].startswith("RESULT"):
                 buf.append(lines[j]); j -= 1
             vline = " | ".join(reversed(buf))[:1200]
+is_control = bool(m and m.group(2) == "pass")
 meta = {
     "id": sid,
     "property": prop,
+    "kind": "control: behaviour-preserving change, the checks must stay silent" if is_control else "breaks the property",
     "title": title,
     "files_changed": files,
     "breaks": clause,
@@ -48,7 +50,7 @@ meta = {
     },
     "check_result": {
         "how": f"tools/try_seeded.sh {prop} seeded/{sid}/patch.diff quick  (same as: git -C /repo apply <patch>; ./check {prop} quick; git -C /repo checkout -- .)",
-        "outcome": detected,
+        "outcome": ("NO-ALARM" if detected == "MISSED" else "FALSE-ALARM:" + detected) if is_control else detected,
         "reported": vline,
     },
 }
